@@ -94,7 +94,14 @@ def time_string(ms, fraction):
     dt = datetime.datetime(1970, 1, 1) + datetime.timedelta(milliseconds=ms)
     s = '%04d-%02d-%02dT%02d:%02d:%02d' % (dt.year, dt.month, dt.day, dt.hour, dt.minute, dt.second)
     if fraction:
-        s += '.%06d' % dt.microsecond
+        # every spelling strptime('%f') accepts: 6 digits, 3 digits, shortest (e.g. '.5', '.25', '.0'); chosen per event
+        style = (ms // 1000) % 3
+        if style == 0:
+            s += '.%06d' % dt.microsecond
+        elif style == 1:
+            s += '.%03d' % (dt.microsecond // 1000)
+        else:
+            s += '.' + (('%06d' % dt.microsecond).rstrip('0') or '0')
     else:
         assert dt.microsecond == 0
     return s
